@@ -342,6 +342,60 @@ def h11_plugin_markers(S):
                  f"the plugin's router has {sorted(router.actors)}")
 
 
+def h11_late_registration(S):
+    """Actors registered on a worker after it was built (include_router or @worker.actor) are the last registrations of their
+    names: they are the ones that run, on the queue they name."""
+    from repid import Job, Router, Worker
+    from repid.converter import BasicConverter
+
+    how = ["include_router", "worker.actor"][S.pick("registered_through", 2)]
+    moves_queue = S.flag("override_moves_the_name_to_another_queue")
+    ran = []
+    out = {}
+
+    async def main(loop):
+        w = World()
+        await w.open(queues=("q1", "q2"), record=False)
+        r1 = Router()
+
+        @r1.actor(name="report", queue="q1", converter=BasicConverter)
+        async def base_report():
+            ran.append("constructor-router")
+
+        worker = Worker(routers=[r1], handle_signals=[], _connection=w.conn, graceful_shutdown_time=1.0, messages_limit=1)
+        newq = "q2" if moves_queue else "q1"
+        if how == "include_router":
+            r2 = Router()
+
+            @r2.actor(name="report", queue=newq, converter=BasicConverter)
+            async def override_report():
+                ran.append("later-registration")
+
+            worker.include_router(r2)
+        else:
+            @worker.actor(name="report", queue=newq, converter=BasicConverter)
+            async def worker_report():
+                ran.append("later-registration")
+
+        out["topics_before_run"] = {q: sorted(t) for q, t in worker.topics_by_queue.items() if t}
+        await Job("report", queue=newq, id_="j1", _connection=w.conn).enqueue()
+        if moves_queue:
+            # a job of that name on the old queue now belongs to somebody else
+            await Job("report", queue="q1", id_="foreign", _connection=w.conn).enqueue()
+        try:
+            await asyncio.wait_for(worker.run(), timeout=5)
+            out["returned"] = True
+        except asyncio.TimeoutError:
+            out["returned"] = False
+        out["foreign"] = place_names(mem_places(w.broker, "q1"), "foreign") if moves_queue else None
+
+    run_async(main)
+    S.cover("late-registration")
+    S.check("last-registration-wins", ran == ["later-registration"] and out["returned"], info=f"ran={ran} returned={out['returned']} topics before run={out['topics_before_run']}")
+    if moves_queue:
+        S.check("foreign-message-stays-available", out["foreign"] == ["waiting"], info=str(out["foreign"]))
+
+
 def h11_redis_window(S):
     """Redis: foreign messages filling one or more fetch windows in front of an own job do not hide it."""
     from repid import Job, Router, Worker
@@ -440,6 +494,9 @@ HARNESSES = [
             bounds={"fetch window": "2 names per round trip (PREFETCH_AMOUNT set by the harness; the code is window-size generic)",
                     "foreign messages in front of the own job": "1..5 (less than, exactly, and more than whole windows)", "category": "normal list or due-delayed set"},
             functions=["connections/redis/consumer.py:_RedisConsumer.__fetch_message_name"], covers=["window-checked"], stubs=["fake Redis server"]),
+    Harness(name="H11-late-registration", scenario=h11_late_registration,
+            bounds={"worker": "built from a router, then a registration of the same name through include_router or @worker.actor, on the same or another queue"},
+            functions=["worker.py:Worker.run", "router.py:Router.include_router", "router.py:Router.actor"], covers=["late-registration"]),
     Harness(name="H11-rabbit-paused-neighbour", scenario=h11_rabbit_paused,
             bounds={"workers": "A (messages_limit 1, reached with a job that runs 3 s: its consumer is paused but registered) and B on one shared RabbitMQ queue",
                     "foreign messages": "1..3, published while A waits for its job", "server": "basic.qos applied to the channel at once, or per consumer as RabbitMQ does for global=false"},
